@@ -491,6 +491,15 @@ def evs(v, specs, depth=0):
     if kk == 'try':
         outs = []
         for x in evs(v.get('v'), specs, depth + 1):
+            # `r.map(Some).map_err(f)?` — whatever r is, what survives the `?` is Some(<its Ok payload>)
+            y = vt.unvar(x)
+            while isinstance(y, dict) and y.get('k') == 'call' and y.get('recv') is not None and y.get('f') in ('map_err', 'or_else', 'context', 'with_context'):
+                y = vt.unvar(y['recv'])
+            if isinstance(y, dict) and y.get('k') == 'call' and y.get('f') == 'map' and y.get('recv') is not None and len(y.get('args', [])) == 1:
+                a0 = vt.unvar(y['args'][0])
+                if isinstance(a0, dict) and a0.get('k') == 'path' and str(a0.get('text', '')).replace(' ', '').split('::')[-1] == 'Some':
+                    outs.append({'k': 'some', 'v': {'k': 'try', 'v': y['recv'], 'ty': None}})
+                    continue
             sh = _shape(x)
             if isinstance(x, dict) and x.get('k') == 'never':
                 outs.append(x)
